@@ -186,7 +186,7 @@ impl<'c> Driver<'c> {
                 guard(|| Board::double_chess960_startpos(w, bn)).ok().map(|b| (b, "dfrc", "dfrc"))
             }
             2 => {
-                if self.corpus.valid.is_empty() || cx.rng.chance(1, 50) {
+                if self.corpus.valid.is_empty() || cx.rng.chance(1, 12) {
                     let t = *cx.rng.pick(PERFT_ROOTS);
                     guard(|| t.parse::<Board>()).ok().and_then(|r| r.ok()).map(|b| (b, "fromstr", "perft-root"))
                 } else {
